@@ -129,7 +129,7 @@ class Gen(object):
         self.rng, self.table = rng, table     # table: type -> {attr: field record}
         self.values = {}
 
-    def val(self, kind, attr, ev=()):
+    def val(self, kind, attr, ev=(), bits=32):
         r = self.rng
         if kind == "enum":
             vid = "v%d" % len(self.values)
@@ -144,9 +144,10 @@ class Gen(object):
         elif kind == "bool":
             v = r.choice([True, False])
         elif kind == "uint":
-            v = r.choice([0, 1, 127, 128, 65536, 2 ** 31, 2 ** 32 - 1, r.randint(0, 2 ** 32 - 1)])
+            v = r.choice([0, 1, 127, 128, 65536, 2 ** 31, 2 ** 32 - 1, r.randint(0, 2 ** 32 - 1)] +
+                         ([2 ** 32, 2 ** 32 + 1, 5 * 2 ** 40 + 3, 2 ** 63, 2 ** 64 - 1] if bits == 64 else []))
         elif kind == "int":
-            v = r.choice([0, 1, 5, 2 ** 31 - 1])
+            v = r.choice([0, 1, 5, 2 ** 31 - 1] + ([2 ** 31, 2 ** 40 + 7, 2 ** 63 - 1] if bits == 64 else []))
         elif kind == "double":
             v = r.choice([0.0, -33.123456789, 52.5200066, 1e-7, 179.999999])
         elif kind == "float":
@@ -167,9 +168,9 @@ class Gen(object):
             if not take:
                 continue
             if f["rep"]:
-                fields[attr] = [self.val(f["kind"], attr, f["ev"]) for _ in range(self.rng.choice([1, 2, 3]))]
+                fields[attr] = [self.val(f["kind"], attr, f["ev"], f.get("bits", 32)) for _ in range(self.rng.choice([1, 2, 3]))]
             else:
-                fields[attr] = self.val(f["kind"], attr, f["ev"])
+                fields[attr] = self.val(f["kind"], attr, f["ev"], f.get("bits", 32))
         if typ == "Message_ProtocolMessage":
             fields["key"] = self.obj("MessageKey", depth, mode)
         if "context_info" in self.table[typ] and depth > 0 and (mode in ("all", "context_info") or (mode == "rand" and self.rng.random() < 0.6)):
@@ -392,6 +393,52 @@ def object_isolation(r, gen, table, rng):
                             {"content": content, "depth": depth})
 
 
+def failures_leave_no_trace(r, gen, table, rng):
+    """The converter is one object per process.  Conversions that FAIL (a field value of the wrong type deep inside a quoted message, a payload
+    that is not a payload) must leave nothing behind: a well-formed message with nested quotes converted afterwards serialises to the same
+    bytes, and parses back to the same object, as before the failures."""
+    from yowsup.layers.protocol_messages.protocolentities.attributes.converter import AttributesConverter
+    from yowsup.layers.protocol_messages.protocolentities.attributes import attributes_message, attributes_contact, attributes_context_info, attributes_extendedtext
+    conv = AttributesConverter.get()
+    for content in ["extended_text", "image", "contact"]:
+        r.case(("after-failures", content))
+        o = gen.message(3, "all", content)
+        try:
+            good = build(o, gen.values)
+            before = bytes(conv.message_to_protobytes(good))
+            parsed_before = project(conv.protobytes_to_message(before), "Message", table)
+        except Exception as e:
+            r.violation("after-failures:exception:%s" % content, "converting a well-formed %s message with nested quotes raised %r" % (content, e), {"content": content})
+            continue
+        failed = 0
+        for k in range(14):
+            # a reply quoting a contact whose vcard is text where bytes are required (serialising) / a truncated payload (parsing)
+            bad_contact = attributes_contact.ContactAttributes(u"name", u"BEGIN:VCARD" if k % 2 == 0 else 12345, None)
+            ctx = attributes_context_info.ContextInfoAttributes(stanza_id="3EB0%04d" % k, participant="4915770000001@s.whatsapp.net",
+                                                                quoted_message=attributes_message.MessageAttributes(contact=bad_contact))
+            bad = attributes_message.MessageAttributes(extended_text=attributes_extendedtext.ExtendedTextAttributes(u"reply", None, None, None, None, None, ctx))
+            try:
+                conv.message_to_protobytes(bad)
+            except Exception:
+                failed += 1
+            try:
+                conv.protobytes_to_message(before[:max(1, len(before) - 1 - k)])
+            except Exception:
+                failed += 1
+        r.notes["after_failures_conversions_that_failed"] = r.notes.get("after_failures_conversions_that_failed", 0) + failed
+        try:
+            after = bytes(conv.message_to_protobytes(build(o, gen.values)))
+            parsed_after = project(conv.protobytes_to_message(before), "Message", table)
+        except Exception as e:
+            r.violation("after-failures:exception:%s" % content, "after %d failed conversions, converting the well-formed %s message raised %r" % (failed, content, e), {"content": content})
+            continue
+        if after != before or parsed_after != parsed_before:
+            r.violation("after-failures:%s:%s" % ("serialise" if after != before else "parse", content),
+                        "after %d failed conversions the same well-formed %s message with nested quotes %s" % (
+                            failed, content, "serialises to different bytes" if after != before else "parses to a different object: %s" % diff_paths(parsed_before, parsed_after)[:4]),
+                        {"content": content})
+
+
 def run():
     r = core.Run("C10", "exploration")
     thorough = r.tier == "thorough"
@@ -489,6 +536,7 @@ def run():
         if ci in (1, 30):
             r.sample({"object": o, "expected_wire_paths": [list(x[0]) for x in exp][:12]})
     object_isolation(r, gen, table, rng)
+    failures_leave_no_trace(r, gen, table, rng)
     entity_histories(r, gen, table, rng, thorough)
     r.assumptions += core.ENV_ASSUMPTIONS[:1] + ["field numbers / wire types are frozen from the protobuf descriptor embedded in e2e_pb2.py (spec/PayloadSchema.tla)",
                       "document file_length lives both on the document and on its downloadable-media attributes; the generator sets them equal",
